@@ -322,13 +322,31 @@ static void eval_desc(mpq_t out, const mpq_t* pt) {
   }
   mpq_clear(c); mpq_clear(xp);
 }
+/* History of the interval assignment (lp_interval_assignment_reset): every variable first gets a decoy interval, the
+   assignment is reset, and only then the intervals of the case are set; a variable whose interval is the whole line is
+   left UNSET in every other case (unset = full by the API), so intervals that survive a reset become visible */
+static unsigned ia_cases = 0;
+static void ia_history(lp_interval_assignment_t* m, int nv) {
+  for (int i = 0; i < nv; i++) {
+    lp_value_t a, b; lp_value_construct_int(&a, 5 + i); lp_value_construct_int(&b, 6 + i);
+    lp_interval_t D; lp_interval_construct(&D, &a, 0, &b, 0);
+    lp_interval_assignment_set_interval(m, vars[i], &D);
+    lp_interval_destruct(&D); lp_value_destruct(&a); lp_value_destruct(&b);
+  }
+  lp_interval_assignment_reset(m);
+  ia_cases++;
+}
+static int ia_skip(const lp_interval_t* I) {
+  return (ia_cases & 1) && !I->is_point && I->a.type == LP_VALUE_MINUS_INFINITY && I->b.type == LP_VALUE_PLUS_INFINITY;
+}
 static void run_poly(void) {
   int nv = atoi(tk());
   int desc = pos;
   lp_polynomial_t* p = build_poly(0);
   expect("A");
   lp_interval_assignment_t* m = lp_interval_assignment_new(var_db);
-  for (int i = 0; i < nv; i++) { lp_interval_t I; get_vi(&I); lp_interval_assignment_set_interval(m, vars[i], &I); lp_interval_destruct(&I); }
+  ia_history(m, nv);
+  for (int i = 0; i < nv; i++) { lp_interval_t I; get_vi(&I); if (!ia_skip(&I)) lp_interval_assignment_set_interval(m, vars[i], &I); lp_interval_destruct(&I); }
   expect("W");
   lp_interval_t r; lp_interval_construct_zero(&r);
   lp_polynomial_interval_value(p, m, &r);
@@ -353,7 +371,8 @@ static void run_apoly(void) {
   lp_polynomial_t* p = build_poly(0);
   expect("A");
   lp_interval_assignment_t* m = lp_interval_assignment_new(var_db);
-  for (int i = 0; i < nv; i++) { lp_interval_t I; get_ai(&I); lp_interval_assignment_set_interval(m, vars[i], &I); lp_interval_destruct(&I); }
+  ia_history(m, nv);
+  for (int i = 0; i < nv; i++) { lp_interval_t I; get_ai(&I); if (!ia_skip(&I)) lp_interval_assignment_set_interval(m, vars[i], &I); lp_interval_destruct(&I); }
   expect("W");
   lp_interval_t r; lp_interval_construct_zero(&r);
   lp_polynomial_interval_value(p, m, &r);
